@@ -16,14 +16,16 @@ def nontrivial(p):
 
 def run(ctx):
     nf.model_unit_check(ctx)
-    n = 200 if ctx.quick else 4000
+    n = 160 if ctx.quick else 3000
     info, _ = nf.check_cases(ctx, mode="c08", n=n, module=MODULE, cfg=CFG, diag_cfg=DIAG, chunks=4,
                              timeout=900 if ctx.quick else 3000, nontrivial_fn=nontrivial)
     ctx.cov["rule"] = ("cases = seeded random proto.Rules that pass API validation (protocol / not-protocol by name and number, "
                        "0-3 positive and negated CIDRs per side incl. /0, /32, nested, mixed-family lists and the negated "
                        "catch-all, 0-40 ports/ranges per side crossing the 15-slot split, named-port sets, positive/negated "
                        "IP sets, service ip+port sets, ICMP type / type+code / negated, every action, ipVersion 0/4/6, "
-                       "flow logs on/off, DROP/REJECT), each rendered by both factories (2 cases per rule); packets = "
+                       "flow logs on/off, DROP/REJECT; every 8th rule has CIDR fields mixing both families with either family first); ONE rule "
+                       "object is rendered for IPv4, then IPv6 (dataplane order), and for IPv4 once more when it has mixed-family "
+                       "lists, by both factories each time (4-6 cases per rule), and judged against a pristine copy; packets = "
                        "PolicyProbes!RuleProbes (bases satisfying all / all-but-one field predicates, starred with every "
                        "boundary value per field: CIDR and set-member edges +-1, port range ends +-1, named protocols + "
                        "others, ICMP type/code +-1) x 2 initial marks; a case is non-trivial when some probe matches the "
